@@ -21,7 +21,7 @@ Print Assumptions C11_any_guard_skips.
 (* a skipped statement sends nothing, yields no output ... *)
 Theorem C11_skipped_statement_is_silent :
   forall substitute sc st w l cs c sql e r sql' ev st1 w1 id,
-    may_substitute substitute st true sql = inl sql' ->
+    may_substitute substitute st true sql = SubOk sql' ->
     get_conn sc st w c = (ev, st1, w1, Some id) ->
     should_skip (labels st1) (engine sc) cs = true ->
     apply_record substitute sc st w (RStatement l cs c sql e r) = (ev, st1, w1, ONothing) /\
@@ -31,7 +31,7 @@ Print Assumptions C11_skipped_statement_is_silent.
 
 Theorem C11_skipped_query_is_silent :
   forall substitute sc st w l cs c sql e r sql' ev st1 w1 id,
-    may_substitute substitute st true sql = inl sql' ->
+    may_substitute substitute st true sql = SubOk sql' ->
     get_conn sc st w c = (ev, st1, w1, Some id) ->
     should_skip (labels st1) (engine sc) cs = true ->
     apply_record substitute sc st w (RQuery l cs c sql e r) = (ev, st1, w1, ONothing) /\
@@ -56,7 +56,7 @@ Print Assumptions C11_skipped_cannot_fail.
 (* an admitted statement is executed: exactly one request carrying its text *)
 Theorem C11_admitted_statement_runs :
   forall substitute sc st w l cs c sql e r sql' ev st1 w1 id,
-    may_substitute substitute st true sql = inl sql' ->
+    may_substitute substitute st true sql = SubOk sql' ->
     get_conn sc st w c = (ev, st1, w1, Some id) ->
     should_skip (labels st1) (engine sc) cs = false ->
     exists d w2, apply_record substitute sc st w (RStatement l cs c sql e r) =
